@@ -275,3 +275,28 @@ func Clone(m proto.Message) proto.Message {
 	}
 	return proto.Clone(m)
 }
+
+// PrefixNamedPairs lists pairs of valid paths (short, long) to sibling fields of md (or of a singular
+// sub-message, up to depth levels down) where the NAME of one is a proper string prefix of the other's
+// (state / state_change_time, preset / preset_index, temperature_set_point / temperature_set_point_delta).
+// Code that compares paths with strings.HasPrefix without the '.' boundary confuses such fields.
+func PrefixNamedPairs(md protoreflect.MessageDescriptor, depth int) [][2]string {
+	var out [][2]string
+	var walk func(md protoreflect.MessageDescriptor, prefix string, d int)
+	walk = func(md protoreflect.MessageDescriptor, prefix string, d int) {
+		fs := md.Fields()
+		for i := 0; i < fs.Len(); i++ {
+			for j := 0; j < fs.Len(); j++ {
+				a, b := string(fs.Get(i).Name()), string(fs.Get(j).Name())
+				if a != b && strings.HasPrefix(b, a) {
+					out = append(out, [2]string{prefix + a, prefix + b})
+				}
+			}
+			if fd := fs.Get(i); d > 0 && singularMsg(fd) {
+				walk(fd.Message(), prefix+string(fd.Name())+".", d-1)
+			}
+		}
+	}
+	walk(md, "", depth)
+	return out
+}
